@@ -285,7 +285,10 @@ fn run_case(args: &Args, run: u64, seed: u64, w: &mut CaseWriter, jsonl: &mut st
     let mut none_lost = atomic_ok;
     let mut history_complete = true;
     let mut new_commands = 0;
-    for h in CAS {
+    // after a deadlock / timeout nothing of the instance may be touched any more: every call would block on the
+    // locks the stuck threads hold (the deadlock itself is the finding; the observables are left at their defaults)
+    let cas_to_observe: &[&str] = if completed { &CAS } else { &[] };
+    for h in cas_to_observe.iter().copied() {
         let v1 = version_of(&sys, h);
         let scope = Ident::boxed_from_string(h.to_string()).unwrap();
         let ks: BTreeSet<String> = store.keys(Some(&scope), "command-").unwrap_or_default().into_iter().map(|k| k.as_str().to_string()).collect();
@@ -381,12 +384,12 @@ fn run_case(args: &Args, run: u64, seed: u64, w: &mut CaseWriter, jsonl: &mut st
             _ => {}
         }
     }
-    let repo_view_ok = {
+    let repo_view_ok = !completed || {
         let fresh = krill::server::pubd::RepositoryContentProxy::create(sys.krill.storage()).ok()
             .and_then(|p| p.stats().ok()).map(|st| { let mut v = serde_json::to_value(&st).unwrap(); canon_sorted(&mut v); v });
         let live = sys.krill.repo_manager().repo_stats().ok().map(|st| { let mut v = serde_json::to_value(&st).unwrap(); canon_sorted(&mut v); v });
         if std::env::var("KV_DEBUG").is_ok() && fresh != live { eprintln!("repo view: live {live:?} fresh {fresh:?}"); }
-        completed && (fresh.is_none() || fresh == live) || !completed
+        fresh.is_none() || fresh == live
     };
     if !repo_view_ok { none_lost = false; }
     let _ = n_ops;
@@ -470,7 +473,10 @@ fn main() {
     let mut rng = Rng::new(args.seed);
     for run in 0..n_runs {
         let seed = rng.next();
+        let stuck_before = impl_failures.iter().filter(|f| f["class"]["deadlock_or_timeout"] == true).count();
         run_case(&args, run, seed, &mut w, &mut jsonl, &mut stats, &mut distinct, &mut samples, &mut impl_failures);
+        // a deadlocked instance keeps its threads and locks: report it and stop instead of piling up stuck instances
+        if impl_failures.iter().filter(|f| f["class"]["deadlock_or_timeout"] == true).count() > stuck_before { break }
     }
     w.flush();
     let lock_probe = scope_exclusion_probe(&args, &mut impl_failures);
